@@ -31,6 +31,12 @@ def _e2(text, ref):
 
 
 CLAIMED = {
+    "C01": _e1("Whole hierarchies (wishbone.Decoder over SRAMs and Wishbone-CSR bridges over nested csr.Decoders over "
+               "multiplexers, register bridges, event monitors, GPIO) flattened into one netlist; against the ROOT "
+               "memory map: leaf strobes iff the address decodes to that leaf and chunk offsets (CSR roots, from an "
+               "arbitrary state, symbolic root address), and one symbolic Wishbone transfer from reset reaching "
+               "exactly the mapped leaves / SRAM words, never acknowledged outside every window.",
+               "DESIGN.md section 4 C01"),
     "C02": _e2("Real MemoryMap.add_resource/add_window/align_to/freeze and the range map beneath run on symbolic "
                "addresses and sizes; every path of every enumerated call-kind sequence (length 2 exhaustively, 3-4 "
                "sampled / exhaustive in the thorough tier) is explored and disjointness, bounds, size, reporting, "
